@@ -343,6 +343,7 @@ impl SubscriptionActor {
             self.info.name.clone(),
             self.topic
                 .upgrade()
+                .filter(|t| !t.is_deleted())
                 .map(|t| t.name.clone())
                 .unwrap_or_else(TopicName::deleted),
             self.outstanding.len(),
